@@ -73,6 +73,12 @@ def run(ctx):
                         expect_idle={"u1": {"set": 2, "pw": "p1", "adm": False, "aux": "orig"}, "u2": {"set": 3, "pw": "p2", "adm": True, "aux": "orig"},
                                      "u3": {"set": 2, "pw": "p3", "adm": False, "aux": "orig"}},
                         expect_prop="C12", expect_key="failed-upgrade-damaged-record"))
+    # ... or with a write that fails part-way (file-size limit of 256 bytes: the hash line fits, the 70 000-byte auxiliary line
+    # does not): the record must stay byte-identical, and be upgraded once the limit is gone
+    scs.append(scen("upgrade-write-cut-short", "local",
+                    [{"t": "fsizelimit", "n": 256}, login("c1", "u1", "p1"), {"t": "sleep", "n": 80}, {"t": "fsizeunlimit"},
+                     {"t": "sleep", "n": 20}, login("c2", "u1", "p1"), {"t": "free"}], seed=3,
+                    expect_idle={"u1": {"set": 2, "pw": "p1", "adm": False, "aux": "orig"}}, expect_prop="C12", expect_key="failed-upgrade-damaged-record"))
     # up-to-date user and wrong passwords: nothing is rewritten at all
     scs.append(scen("noop-uptodate", "local", one(login("c1", "u3", "p3")), expect_unchanged=True, expect_prop="C12",
                     expect_key="login-rewrote-up-to-date-record"))
